@@ -1,5 +1,6 @@
 """C02 — numeric-solver expressions equal the user's right-hand sides (lossless split)."""
 import random
+import re
 from fractions import Fraction
 
 from . import common as C
@@ -7,8 +8,8 @@ from . import sysutil as U
 
 PROP = "C02"
 PROPS_FILE = "theories/Props/C02.v"
-THEOREMS = ["c02_split_lossless", "c02_row_is_rhs", "c02_row_of_function_of_time", "c02_lower_rows", "c02_subsystem_lossless", "c02_numeric_update_is_rhs", "c02_system_rows"]
-GEN_FILES = []
+THEOREMS = ["c02_split_lossless", "c02_row_is_rhs", "c02_row_of_function_of_time", "c02_lower_rows", "c02_subsystem_lossless", "c02_numeric_update_is_rhs", "c02_system_rows", "c02_preserved_or_computed"]
+GEN_FILES = ["PreserveGen.v"]
 TRUSTED = ["Coq 8.16.1 kernel + vm_compute",
            "theorems closed under the global context; stated in an arbitrary commutative ring (ring_theory hypothesis) with pw a 1 = a",
            "correspondence harness (harness/c02.py, sysutil.py, sysimpl.py): renders abstract systems, evaluates the implementation's A, b, c and update expressions exactly at rational points (Float atoms replaced by their exact binary value), comparison computed in Coq by Model/SystemExec",
@@ -156,6 +157,26 @@ def run(ctx):
     tasks = [{"fn": "sysimpl.run_analysis", "indict": c["indict"], "flags": c["flags"], "want": ["abc", "upd"],
               "point": point_names(c["system"], pt_of(c)), "timeout": 45} for c in cases]
     ftasks = [gen_fcase(rng) for _ in range(60 if quick else 600)]
+    # function-of-time entries handed to the numeric solver: the update expressions must be those of the equivalent
+    # equations (never the function text, never the time variable), whatever is asked to be preserved
+    from . import c06 as _c06
+    for F in _c06.FORMULATIONS:
+        user = {}
+        for d_ in F["ode"]["dynamics"]:
+            lhs_, rhs_ = d_["expression"].split("=")
+            nm_, order_ = lhs_.strip().replace("'", ""), lhs_.count("'")
+            user[nm_ + "__d" * (order_ - 1)] = rhs_.strip().replace("'", "__d")
+            for k_ in range(order_ - 1):
+                user[nm_ + "__d" * k_] = nm_ + "__d" * (k_ + 1)
+        names_ = sorted(user)
+        firsts_ = [d_["expression"].split("=")[0].strip().replace("'", "") for d_ in F["fot"]["dynamics"] if d_["expression"].split("=")[0].count("'") <= 1]
+        for pe_ in (None, True, firsts_[:1], firsts_):
+            fl_ = {"disable_analytic_solver": True}
+            if pe_ is not None:
+                fl_["preserve_expressions"] = pe_
+            idents_ = set(re.findall(r"[A-Za-z_][A-Za-z_0-9]*", " ".join(list(user.values()) + [d_["expression"] for d_ in F["fot"]["dynamics"]]))) - {"exp", "e", "sin", "cos"}
+            pt_ = {nm: repr(rng.uniform(0.3, 2)) for nm in sorted(idents_ | set(names_) | {"t"})}
+            ftasks.append({"fn": "c02.impl_fstream", "indict": F["fot"], "flags": fl_, "user": user, "point": pt_, "timeout": 200, "function_of_time": True})
     allres = C.run_tasks(tasks + ftasks, timeout=45)
     results, fres = allres[:len(tasks)], allres[len(tasks):]
     coq_abc, coq_upd, info_abc, info_upd = [], [], [], []
@@ -235,7 +256,12 @@ def run(ctx):
         oc = r.get("outcome")
         dist["fstream_outcomes"][oc] = dist["fstream_outcomes"].get(oc, 0) + 1
         if oc != "Ok":
+            if t.get("function_of_time") and oc == "Malformed":
+                # a request to preserve a function-of-time entry (not a first-order ODE) is documented to be refused
+                dist["fot_preserve_refused"] = dist.get("fot_preserve_refused", 0) + 1
             continue
+        if t.get("function_of_time"):
+            dist["function_of_time_numeric_runs"] = dist.get("function_of_time_numeric_runs", 0) + 1
         for var, d, ex in r["diffs"]:
             dist["fstream_compared"] += 1
             if d is None or d > 1e-11:
